@@ -182,8 +182,9 @@ Proof.
 Qed.
 
 (* no container ordered by an unrecognised comparator *)
-Lemma order_containers_recognised :
-  forallb (fun c => negb (String.eqb (snd c) "by_comparator_unrecognised")) order_containers = true.
+Definition containers_recognised : bool :=
+  forallb (fun c => negb (String.eqb (snd c) "by_comparator_unrecognised")) order_containers.
+Lemma order_containers_recognised : containers_recognised = true.
 Proof. vm_compute. reflexivity. Qed.
 
 (* BALANCE < commoditized amount: the faithful model depends on the order of the table *)
